@@ -1037,7 +1037,8 @@ def compare_collider(c, rj, ri, T):
                     e = max((abs(u - v) for u, v in zip(x, y)), default=0.0)
                     if e > tol:
                         dvec = np.array(o.get("d", [0.0, 0.0, 0.0]), dtype=float)
-                        if fn == "support" and abs(float(np.array(x) @ dvec) - float(np.array(y) @ dvec)) <= tol * max(1.0, float(np.linalg.norm(dvec))):
+                        if fn == "support" and np.any(dvec != 0.0) and \
+                                abs(float(np.array(x) @ dvec) - float(np.array(y) @ dvec)) <= tol * max(1.0, float(np.linalg.norm(dvec))):
                             T.hit("support_points_differ_same_value")
                         else:
                             fails.append(f"{fn}.{key}: {x} compiled vs {y} interpreted")
@@ -1243,9 +1244,11 @@ def run(tier, seed, replay=None):
             if diffs and c["k"] == "call" and c["fn"].startswith("support_function_"):
                 # two different but equally extreme points (a tie decided by a 1-ulp difference of the local direction)
                 # are the same answer: compare the support VALUES p.d
+                # (not for the exactly zero direction: there every point has the same value, the rule would be vacuous, and no
+                # rounding difference can steer the zero-direction arm: the two modes must return the same point)
                 dvec = np.array(c["args"][0]["a"], dtype=float)
                 pa_, pb_ = np.array(unser(a["ok"]), dtype=float), np.array(unser(b["ok"]), dtype=float)
-                if abs(float(pa_ @ dvec) - float(pb_ @ dvec)) <= 1e-9 * L * max(1.0, float(np.linalg.norm(dvec))):
+                if np.any(dvec != 0.0) and abs(float(pa_ @ dvec) - float(pb_ @ dvec)) <= 1e-9 * L * max(1.0, float(np.linalg.norm(dvec))):
                     T.hit("support_points_differ_same_value")
                     diffs = []
             if c["k"] == "mesh" and (diffs or discrete):
